@@ -103,7 +103,7 @@ impl Property for C02 {
         "C02"
     }
     fn rule(&self) -> String {
-        "case = generated text log (one of 10 timestamp notations, 0..40 messages, 0..3 continuation lines, byte classes ascii/utf8/binary incl. NUL, CR, 0x80-0xff, line lengths steered around multiples of the small block size, header lines, optional final newline) x 3 block sizes (65536, 64, generated 65..4096); oracle: stdout == file[first timestamped line..] (+\\n if missing) and, with a sentinel --separator, message boundaries == generator boundaries; 80% of the cases run the in-process twin instead (SyslogProcessor driven through the stage sequence of exec_syslogprocessor incl. drop_data_try; every message's file offset and bytes must equal the generator's spans), 20% the real binary. non-trivial = >=2 messages and (a line crosses a block boundary at one of the sizes, or a multi-line message, or a non-ASCII/NUL byte); distinct = hash of (file bytes, block sizes). Files rejected by the block-zero heuristic (finding F6) are excluded by construction and counted under discarded_by_reason.".into()
+        "case = generated text log (one of 10 timestamp notations, 0..40 messages, 0..3 continuation lines, byte classes ascii/utf8/binary incl. NUL, CR, 0x80-0xff, line lengths steered around multiples of the small block size, header lines, optional final newline) x 3 block sizes (65536, 64, generated 65..4096); oracle: stdout == file[first timestamped line..] (+\\n if missing) and, with a sentinel --separator, message boundaries == generator boundaries; 70% of the cases run the in-process twin instead (SyslogProcessor driven through the stage sequence of exec_syslogprocessor incl. drop_data_try; every message's file offset and bytes must equal the generator's spans), 30% the real binary; 15% of all cases are binary runs whose last message ends in a 900..2200-byte line with or without a final newline (sized around the 1024-byte stdout line buffer and the 2056-byte print buffer). non-trivial = >=2 messages and (a line crosses a block boundary at one of the sizes, or a multi-line message, or a non-ASCII/NUL byte); distinct = hash of (file bytes, block sizes). Files rejected by the block-zero heuristic (finding F6) are excluded by construction and counted under discarded_by_reason.".into()
     }
     fn assumptions(&self) -> Vec<String> {
         vec![
@@ -130,8 +130,22 @@ impl Property for C02 {
                 let p = TextParams { max_msgs, steer_bs: steer, max_mult: 4, accept_bs: bss.clone(), ..TextParams::default() };
                 (text_log(p), Just(bss))
             })
-            .prop_flat_map(|(log, bss)| (Just(log), Just(bss), prop::bool::weighted(0.8)))
-            .prop_map(|(log, bss, inproc)| Case { log, bss, inproc })
+            .prop_flat_map(|(log, bss)| (Just(log), Just(bss), prop::bool::weighted(0.7), prop::option::weighted(0.15, (900usize..2200, any::<bool>()))))
+            .prop_map(|(mut log, bss, mut inproc, tail)| {
+                // tail shaping (binary runs): the last message gets a final line sized around the print path's buffers
+                // (1024-byte stdout line buffer, 2056-byte print buffer), with or without a final newline
+                if let (Some((len, nl)), Some(last)) = (tail, log.msgs.last_mut()) {
+                    let line = crate::textgen::stretch(b"tail ", len);
+                    if last.cont.is_empty() {
+                        last.cont.push(crate::bytes::B(line));
+                    } else {
+                        *last.cont.last_mut().unwrap() = crate::bytes::B(line);
+                    }
+                    log.final_nl = nl;
+                    inproc = false;
+                }
+                Case { log, bss, inproc }
+            })
             .boxed()
     }
     fn probes(&self, _tier: Tier) -> Vec<(String, Case)> {
